@@ -523,6 +523,14 @@ def run(ck):
     if ck.wants("C16.12"):
         from .c05 import worker_gives_up_only_without_seeds as _wg16
         _wg16(ck, "C16.12")
+    ck.clause("C16.13", "a query is correlated with a reference only when its whole length fits (as C07.G5): the query vector spans "
+                        "coordinates 0 .. last label of the molecule - for a second-pass fragment that is the whole molecule, not the "
+                        "labelled stretch - and a 'valid' correlation with a query vector longer than the reference vector silently "
+                        "exchanges its arguments: peaks on bins that are no reference lags compete for the peaksCount seeds")
+    if ck.wants("C16.13"):
+        from ..report import RuleView as _RV1613
+        from .c07 import _g5 as _g5_16
+        _g5_16(_RV1613(ck, {"C07.G5": "C16.13"}))
     ck.clause("C16.11", "both strands are correlated with the same settings (as C11.4 :same-arguments): a reverse-strand call that leaves "
                         "peaksCount to a default keeps another number of peaks per correlation than the forward call")
     if ck.wants("C16.11"):
